@@ -156,7 +156,7 @@ def get_attr(I, obj, name, node):
         return Builtin('logging.log')
     if isinstance(obj, AObj):
         if name in obj.attrs:
-            I.emit('attr-read', node, {'obj': obj, 'name': name})
+            I.emit('attr-read', node, {'obj': obj, 'name': name, 'value': obj.attrs[name]})
             return obj.attrs[name]
         if name == '__class__':
             return obj.cls
@@ -892,6 +892,8 @@ def compare(I, op, l, r, node):
         if opn == 'NotEq':
             return cl is not cr
     if opn in ('Eq', 'NotEq'):
+        if l is r and isinstance(l, (ADict, AList, Unk)):
+            return opn == 'Eq'
         if isinstance(l, Unk) and rc:
             if any(cr not in s for s in l.in_sets):
                 return opn == 'NotEq'
